@@ -35,10 +35,11 @@ CanEx(i, t) == OnCell(i, t) = {}
 FreeSlots == {g \in Slots : ~Live(g)}
 MinOf(S) == CHOOSE x \in S : \A y \in S : x <= y
 
-ShForms == {"try_borrow", "borrow", "try_borrow_value", "borrow_value", "try_get_value", "get_value"}
-ExForms == {"try_borrow_mut", "borrow_mut", "try_borrow_value_mut", "borrow_value_mut"}
+ShForms == {"try_borrow", "borrow", "try_borrow_value", "borrow_value", "try_get_value", "get_value"} \cup AccSh
+ExForms == {"try_borrow_mut", "borrow_mut", "try_borrow_value_mut", "borrow_value_mut"} \cup AccEx
 KindOf(f) == IF f \in ExForms THEN "ex" ELSE "sh"
-Refused(f) == IF f \in PanicForms THEN R("panic", NoVal)
+Refused(f) == IF f \in AccOption THEN R("none", NoVal)
+              ELSE IF f \in PanicForms \cup AccPanic THEN R("panic", NoVal)
               ELSE IF f \in ExForms THEN R("conflict_mut", NoVal) ELSE R("conflict_imm", NoVal)
 Grantable(i, t, f) == IF KindOf(f) = "ex" THEN CanEx(i, t) ELSE CanSh(i, t)
 
@@ -167,11 +168,16 @@ DoB(a) ==
       [] OTHER -> Do(a) /\ UNCHANGED <<guards, held>>      \* plain registry call
 
 (* what the caller can issue in the current state *)
+AccHere == {f \in AccForms : AccType(f) \in Type}      \* the accessors whose type is part of the universe
 SharedActs ==
     {BA("acquire", t, NoVal, NoVal, d, f, <<>>, <<>>) :
-         t \in Type, d \in Depths, f \in (ShForms \cup ExForms) \ {"try_get_value", "get_value"}}
+         t \in Type, d \in Depths, f \in ((ShForms \cup ExForms) \ AccForms) \ {"try_get_value", "get_value"}}
     \cup {BA("read", t, NoVal, NoVal, d, f, <<>>, <<>>) : t \in Type, d \in Depths, f \in ReadForms}
     \cup {BA("write", t, v, NoVal, d, f, <<>>, <<>>) : t \in Type, v \in Val, d \in Depths, f \in WriteForms}
+    \* the convenience accessors: kept (those that return a guard), used and dropped at once, written through
+    \cup {BA("acquire", AccType(f), NoVal, NoVal, 0, f, <<>>, <<>>) : f \in AccHere \cap AccGuard}
+    \cup {BA("read", AccType(f), NoVal, NoVal, 0, f, <<>>, <<>>) : f \in AccHere}
+    \cup {BA("write", AccType(f), v, NoVal, 0, f, <<>>, <<>>) : f \in AccHere \cap AccEx, v \in Val}
     \cup {BA("set_value", t, v, NoVal, d, "-", <<>>, <<>>) : t \in Type, v \in Val, d \in Depths}
     \cup {BA("contains", t, NoVal, NoVal, d, "-", <<>>, <<>>) : t \in Type, d \in Depths}
     \cup {BA("release", NoT, g, NoVal, 0, "-", <<>>, <<>>) : g \in {x \in Slots : Live(x)}}
@@ -226,7 +232,7 @@ GrantDependsOnlyOnCell ==
               i == Innermost(scopes, t, Len0 - act'.d)
               ex == act'.f \in ExForms \/ act'.op = "write"
               compatible == IF ex THEN OnCell(i, t) = {} ELSE ExOn(i, t) = {} IN
-          IF i = 0 THEN res'.k \in {"notfound", "panic"}
+          IF i = 0 THEN res'.k \in {"notfound", "panic", "none"}
           ELSE /\ (res'.k = "ok") <=> compatible
                /\ res'.k = "ok" => res'.v = scopes[i][t] ]_bvars
 
@@ -235,9 +241,33 @@ GrantDependsOnlyOnCell ==
 ConflictsAreErrors ==
     [][ res'.k \in {"conflict_imm", "conflict_mut", "notfound", "duplicate", "panic"} =>
           /\ scopes' = scopes /\ guards' = guards /\ held' = held
-          /\ res'.k = "panic" => act'.f \in PanicForms \cup {"take", "get_multiple_mut"}
+          /\ res'.k = "panic" => act'.f \in PanicForms \cup AccPanic \cup {"take", "get_multiple_mut"}
           /\ res'.k = "conflict_imm" => act'.f \in ShForms
           /\ res'.k = "conflict_mut" => act'.f \in ExForms ]_bvars
+
+\* the convenience accessors of State: each looks up ITS type, resolves it to the innermost binding, needs exactly
+\* the borrow mode it is documented with (a reader is served next to any number of shared guards, a writer only
+\* alone), hands out / uses a guard of that mode, and refuses the way its signature says: None from the Option
+\* readers, a panic from the wrappers of the panicking forms -- never the other way round, and nothing changes
+AccessorsSound ==
+    [][ act'.f \in AccForms =>
+          LET f == act'.f
+              t == AccType(f)
+              i == Innermost(scopes, t, Len0)
+              compatible == IF f \in AccEx THEN OnCell(i, t) = {} ELSE ExOn(i, t) = {} IN
+          /\ act'.t = t /\ act'.d = 0 /\ held' = held
+          /\ (res'.k = "ok") <=> (i # 0 /\ compatible)
+          /\ res'.k = "ok" => res'.v = scopes[i][t]
+          /\ res'.k # "ok" => /\ res'.k = (IF f \in AccOption THEN "none" ELSE "panic")
+                              /\ scopes' = scopes /\ guards' = guards
+          /\ act'.op = "read" => scopes' = scopes /\ guards' = guards
+          /\ act'.op = "write" => /\ f \in AccEx /\ guards' = guards
+                                  /\ res'.k = "ok" => scopes'[i][t] = act'.v
+          /\ (act'.op = "acquire" /\ res'.k = "ok") =>
+                /\ f \in AccGuard /\ scopes' = scopes
+                /\ \E g \in Slots : /\ ~Live(g)
+                                     /\ guards'[g] = [i |-> i, t |-> t, k |-> IF f \in AccEx THEN "ex" ELSE "sh"]
+                                     /\ \A h \in Slots \ {g} : guards'[h] = guards[h] ]_bvars
 
 \* set_value under a conflicting guard replies None and changes nothing
 SetValueRespectsGuards ==
